@@ -223,7 +223,9 @@ void run(vf::Ctx &c) {
                                  kInst[i].name, kInst[i].unit, kMeters[kInst[i].meter].name, kMeters[kInst[i].meter].version, kMeters[kInst[i].meter].schema, join(got[i]).c_str(),
                                  join(want).c_str()) + desc_views;
     // is the exported set explained by a combination of already characterised deviations? (fewest first)
-    static const int order[] = {1, 2, 4, 3, 5, 6, 7};
+    // (an ignored filter can make two views' streams identical, which then also looks like "last view only":
+    // the filter hypothesis is tried first)
+    static const int order[] = {1, 4, 2, 5, 3, 6, 7};
     int explained = 0;
     for (int dev : order) {
       std::vector<std::string> alt = expected_for(kInst[i], views, dev);
@@ -257,7 +259,11 @@ void run(vf::Ctx &c) {
   c.state(all);
   c.outcome(all);
   if (c.tracing()) c.trace("exported:\n%s", all.c_str());
-  if (views.size() <= 1 || c.tracing()) c.sample(desc_views + "=> " + vf::sfmt("%zu streams", streams.size()));
+  if (views.size() <= 1 || c.tracing()) {
+    std::string brief;
+    for (auto &s : streams) brief += " " + s.scope.substr(0, s.scope.find('|', 2)) + ":" + s.name + "(" + s.kind + s.points.substr(0, s.points.find('}') + 1) + ")";
+    c.sample((views.empty() ? std::string("no view ") : desc_views) + "=>" + brief);
+  }
 }
 
 }  // namespace
